@@ -1,3 +1,5 @@
+//go:build verif_all || verif_c16
+
 package main
 
 import (
